@@ -622,6 +622,11 @@ func parsePolicies(s string) ([]policy, bool) {
 				if isASCII(n) != (len(hc) == 1) {
 					return nil, false
 				}
+				// an ASCII name with an ACE prefix is itself subject to IDNA validation at provision
+				// time (invalid punycode is rejected): outside the model, which has no punycode
+				if isASCII(n) && strings.Contains(asciiLower(n), "xn--") {
+					return nil, false
+				}
 				pl.names = append(pl.names, n)
 				pl.conv = append(pl.conv, conv)
 			}
